@@ -32,11 +32,28 @@ struct cache { struct record entries[CAP]; struct list_head free_list, data_list
 int g_cas_calls, g_cas_ok, g_spurious=2; uint32_t g_cas_seen_counter, g_cas_new_counter;   /* at most 2 spurious failures per operation are explored (progress of compare_exchange_weak is the platform's) */
 static struct list_head sq_load(struct list_head* l){ return *l; }
 static void sq_store(struct list_head* l, struct list_head v){ *l=v; }
+#ifdef INTERFERENCE
+/* interference model (shared configuration): between this thread's last look at the list and its compare-and-swap other threads may have run
+ * complete operations.  Each of their successful CASes bumps the version, so the head then carries a different counter (wrap-around after 2^32
+ * foreign operations inside one retry window is excluded); the links of every record this thread does not own are then arbitrary (in range). */
+struct cache; static struct cache* g_self; static int g_cas_kind, g_interf=2; static uint32_t g_owned=0xffffffffu;
+static void sq_interfere(struct list_head* l, const struct list_head* expected);
+static uint32_t sq_succ(uint32_t i);
+#endif
 static _Bool sq_cas(struct list_head* l, struct list_head* expected, struct list_head desired){
   g_cas_calls++;
+#ifdef INTERFERENCE
+  if(g_interf>0 && nondet_bool()){ g_interf--; sq_interfere(l,expected); }
+#endif
   _Bool same = l->counter==expected->counter && l->index==expected->index;      /* the WHOLE (counter,index) pair is compared */
   _Bool fail_spuriously = (g_spurious>0) && nondet_bool(); if(fail_spuriously) g_spurious--;
-  if(same && !fail_spuriously){ g_cas_seen_counter=expected->counter; g_cas_new_counter=desired.counter; g_cas_ok++; *l=desired; return 1; }
+  if(same && !fail_spuriously){
+#ifdef INTERFERENCE
+    /* local linearisation obligations, evaluated in the state the successful CAS acts on */
+    if(g_cas_kind==1) __CPROVER_assert(expected->index<CAP && desired.index==sq_succ(expected->index), "pop: the head installed is the successor of the head compared, as linked when the CAS succeeds");
+    if(g_cas_kind==2) __CPROVER_assert(desired.index==g_owned && sq_succ(g_owned)==expected->index, "push: the pushed record becomes the head and links to the head compared");
+#endif
+    g_cas_seen_counter=expected->counter; g_cas_new_counter=desired.counter; g_cas_ok++; *l=desired; return 1; }
   *expected=*l; return 0;
 }
 #endif
@@ -67,6 +84,13 @@ T cache_get(struct cache* self){
 //@BODY file=include/SQuIDS/detail/Cache.h sig=/\bT\s+get\s*\(\s*\)/ rules=common,cache
 }
 
+#if defined(INTERFERENCE) && !defined(SQUIDS_THREAD_LOCAL)
+static uint32_t sq_succ(uint32_t i){ const struct record* nx=g_self->entries[i<CAP?i:0].next; return nx?(uint32_t)(nx-g_self->entries):CAP; }
+static void sq_interfere(struct list_head* l, const struct list_head* expected){
+  uint32_t c=nondet_unsigned(), ix=nondet_unsigned(); __CPROVER_assume(c!=expected->counter && ix<=CAP); l->counter=c; l->index=ix;
+  for(uint32_t i=0;i<CAP;i++) if(i!=g_owned){ uint32_t j=nondet_unsigned(); __CPROVER_assume(j<=CAP); g_self->entries[i].next=(j==CAP)?NULL:&g_self->entries[j]; }
+}
+#endif
 /* ---- specification: abstract view and well-formedness (explicit walks of at most CAP steps) ---------------------------- */
 static int walk(const struct cache* c, uint32_t head, int* idx){          /* returns length, -1 if malformed */
   int n=0; uint32_t cur=head;
@@ -102,6 +126,20 @@ int main(void){
 #if OP==0      /* constructor: all records free, no data */
   cache_ctor(&c);
   __CPROVER_assert(wf(&c,fi,&nf,di,&nd) && nd==0 && nf==CAP, "constructed cache is well formed and empty");
+#elif OP==3 || OP==4   /* pop / push of the shared configuration under interference: local linearisation obligations only (asserted inside sq_cas) */
+#if defined(INTERFERENCE) && !defined(SQUIDS_THREAD_LOCAL)
+  arbitrary_state(&c); __CPROVER_assume(c.data_list.index<=CAP && c.free_list.index<=CAP);
+  g_self=&c; g_cas_calls=0; g_cas_ok=0;
+#if OP==3
+  g_cas_kind=1; struct record* r=cache_pop(&c,&c.data_list);
+  __CPROVER_assert(r==NULL || (r>=c.entries && r<c.entries+CAP), "pop returns NULL or a record of this cache");
+#else
+  g_cas_kind=2; g_owned=nondet_unsigned(); __CPROVER_assume(g_owned<CAP);
+  cache_push(&c,&c.data_list,&c.entries[g_owned]);
+  __CPROVER_assert(g_cas_ok==1, "push completes with exactly one successful CAS");
+#endif
+  __CPROVER_assert(g_cas_ok==0 || g_cas_new_counter==g_cas_seen_counter+1, "successful CAS installs counter == observed counter + 1");
+#endif
 #else
   arbitrary_state(&c);
   __CPROVER_assume(wf(&c,fi,&nf,di,&nd));
